@@ -140,3 +140,123 @@ impl Regs {
         }
     }
 }
+
+// ---------------------------------------------------------------------------
+// One-instruction semantics at the ISA level.
+
+#[derive(Clone, Copy, PartialEq, Eq, Debug)]
+pub enum Width {
+    B,
+    H,
+    W,
+}
+
+#[derive(Clone, Copy, PartialEq, Eq, Debug)]
+pub enum CsrOp {
+    Rw,
+    Rs,
+    Rc,
+}
+
+/// An RV32IM (+Zicsr) instruction with architectural operand fields.
+#[derive(Clone, Copy, PartialEq, Eq, Debug)]
+pub enum RInst {
+    /// rd = op(rs1, rs2)
+    Alu { op: Alu, rd: u8, rs1: u8, rs2: u8 },
+    /// rd = op(rs1, sext(imm)); shift-immediates use imm[4:0]
+    AluImm { op: Alu, rd: u8, rs1: u8, imm: i32 },
+    /// rd = value (lui: the already shifted upper immediate; li; la: a link-time constant)
+    Const { rd: u8, value: u32 },
+    /// rd = pc + 4; pc = label
+    Jal { rd: u8 },
+    /// rd = pc + 4; pc = (rs1 + imm) & !1
+    Jalr { rd: u8, rs1: u8, imm: i32 },
+    Branch { cond: Cond, rs1: u8, rs2: u8 },
+    Load { width: Width, signed: bool, rd: u8, rs1: u8, imm: i32 },
+    Store { width: Width, rs1: u8, rs2: u8, imm: i32 },
+    /// t = CSR[csr]; CSR[csr] = f(t, rs1); rd = t
+    Csr { op: CsrOp, rd: u8, csr: u32, rs1: u8 },
+    CsrImm { op: CsrOp, rd: u8, csr: u32, uimm: u32 },
+    /// ecall / ebreak / uret: no architectural register operand fields
+    System,
+}
+
+/// Registers named by the instruction's source fields (ISA manual, instruction formats).
+pub fn arch_reads(i: &RInst) -> u32 {
+    let b = |r: u8| 1u32 << (r & 31);
+    match *i {
+        RInst::Alu { rs1, rs2, .. } => b(rs1) | b(rs2),
+        RInst::AluImm { rs1, .. } => b(rs1),
+        RInst::Const { .. } | RInst::Jal { .. } | RInst::System | RInst::CsrImm { .. } => 0,
+        RInst::Jalr { rs1, .. } => b(rs1),
+        RInst::Branch { rs1, rs2, .. } => b(rs1) | b(rs2),
+        RInst::Load { rs1, .. } => b(rs1),
+        RInst::Store { rs1, rs2, .. } => b(rs1) | b(rs2),
+        RInst::Csr { rs1, .. } => b(rs1),
+    }
+}
+
+/// Register named by the destination field, if the format has one.
+pub fn arch_writes(i: &RInst) -> Option<u8> {
+    match *i {
+        RInst::Alu { rd, .. }
+        | RInst::AluImm { rd, .. }
+        | RInst::Const { rd, .. }
+        | RInst::Jal { rd }
+        | RInst::Jalr { rd, .. }
+        | RInst::Load { rd, .. }
+        | RInst::Csr { rd, .. }
+        | RInst::CsrImm { rd, .. } => Some(rd),
+        RInst::Branch { .. } | RInst::Store { .. } | RInst::System => None,
+    }
+}
+
+/// Everything one instruction does that depends on register contents.
+#[derive(Clone, Copy, PartialEq, Eq, Debug)]
+pub struct Effect {
+    /// value written to rd (before the x0 discard), if it is computed from registers/immediates
+    pub rd_value: Option<u32>,
+    /// branch decision
+    pub taken: Option<bool>,
+    /// indirect jump target
+    pub target: Option<u32>,
+    /// effective address of a load/store
+    pub addr: Option<u32>,
+    /// value stored (already truncated to the access width)
+    pub store_value: Option<u32>,
+    /// value a CSR instruction combines with the old CSR content
+    pub csr_operand: Option<u32>,
+}
+
+pub fn effect(i: &RInst, r: &Regs, pc: u32) -> Effect {
+    let mut e = Effect { rd_value: None, taken: None, target: None, addr: None, store_value: None, csr_operand: None };
+    match *i {
+        RInst::Alu { op, rs1, rs2, .. } => e.rd_value = Some(alu(op, r.get(rs1), r.get(rs2))),
+        RInst::AluImm { op, rs1, imm, .. } => e.rd_value = Some(alu(op, r.get(rs1), imm as u32)),
+        RInst::Const { value, .. } => e.rd_value = Some(value),
+        RInst::Jal { .. } => {
+            e.rd_value = Some(pc.wrapping_add(4));
+            e.taken = Some(true);
+        }
+        RInst::Jalr { rs1, imm, .. } => {
+            e.rd_value = Some(pc.wrapping_add(4));
+            e.target = Some(r.get(rs1).wrapping_add(imm as u32) & !1);
+            e.taken = Some(true);
+        }
+        RInst::Branch { cond, rs1, rs2 } => e.taken = Some(branch_taken(cond, r.get(rs1), r.get(rs2))),
+        RInst::Load { rs1, imm, .. } => e.addr = Some(r.get(rs1).wrapping_add(imm as u32)),
+        RInst::Store { width, rs1, rs2, imm } => {
+            e.addr = Some(r.get(rs1).wrapping_add(imm as u32));
+            let v = r.get(rs2);
+            e.store_value = Some(match width {
+                Width::B => v & 0xff,
+                Width::H => v & 0xffff,
+                Width::W => v,
+            });
+        }
+        RInst::Csr { rs1, .. } => e.csr_operand = Some(r.get(rs1)),
+        RInst::CsrImm { uimm, .. } => e.csr_operand = Some(uimm),
+        RInst::System => {}
+    }
+    e
+}
